@@ -52,6 +52,9 @@ def seeded():
         if os.path.exists(n):
             for l in open(n, errors='replace'):
                 if l.startswith('#'): desc = l.lstrip('# ').strip(); break
+            if not desc:      # no heading: the first non-empty line is the title
+                for l in open(n, errors='replace'):
+                    if l.strip() and not set(l.strip()) <= set('=-'): desc = l.strip(); break
         det = j.get('detected_by') or []
         ck = j.get('checks', {}); viol = ''
         for c in det:
